@@ -618,7 +618,7 @@ impl BranchNodeBuilder {
 
             let RawSeparatorsData {
                 start: mut base_separator_bytes_start,
-                byte_len: base_separator_bytes_len,
+                byte_len: mut base_separator_bytes_len,
                 bit_start: mut base_separator_bit_start,
                 bit_len: base_separator_bit_len,
             } = base.view().raw_separators_data(base_index, base_index + 1);
@@ -665,6 +665,13 @@ impl BranchNodeBuilder {
                     &mut base_separator_bytes_start,
                 );
                 bit_len = separator_bit_len;
+                // `bitwise_memcpy` expects the smallest multiple of 8 bytes able to contain the
+                // source bits: fewer bits are copied, starting at a later byte.
+                base_separator_bytes_len = if bit_len == 0 {
+                    0
+                } else {
+                    ((base_separator_bit_start + bit_len + 7) / 8).next_multiple_of(8)
+                };
             }
 
             bitwise_memcpy(
